@@ -29,7 +29,15 @@ PROP = {
              "server - FIN variant in the thorough tier - so that only the 3 s pinger can notice; after the client has "
              "re-established it: >= 2 pings in the next 11.5 s, a call issued 8.5 s and answered 11.5 s after the reconnect "
              "gets its answer, exactly one further transport connection; the history carries every ping the server received "
-             "and the model lets at most 5 ticks pass on a healthy pinged connection without one); go/ast check of the statement order in Request / "
+             "and the model lets at most 5 ticks pass on a healthy pinged connection without one); caller contexts (c12.script: each call under Background, a deadline "
+             "of 1 h, a deadline at a third of the client timeout, or a cancel-only context that the caller cancels: the "
+             "model says which deadline ends an unanswered call - client / caller / cancelled - and the harness measures it; a "
+             "call that outlives min(client timeout, caller deadline) by 3 s is call-hangs); c12.auth in the guarded child "
+             "(unmodified NewConnection with and without an auth key against a server that runs tcp.authentificate -> nonce "
+             "-> complete and verifies the Ed25519 signature over both nonces; Request, LiteServerGetTime and "
+             "WaitMasterchainSeqno under a 1 h caller deadline, unanswered calls, FIN/RST drops, recovery: results, number of "
+             "transport connections and of verified authentications predicted by the model; a crash of the process is an "
+             "outcome); go/ast check of the statement order in Request / "
              "registerCallback / processQueryAnswer. A class is (kind, connections, callers bucket, waves/drop or race shape "
              "or history shape, outcome)."),
     'explanation': ("coq/Properties/C12.v: for every trace of the labelled transition system of client.go + the status machine of "
@@ -41,7 +49,9 @@ PROP = {
                     "is never dropped by it); after any number of failed attempts and any waiting time the reconnect loop can "
                     "still succeed (attempts are independent; a single deadline for the whole loop is refuted); the pinger of a connection "
                     "is alive and enabled in every reachable state, across failed pings and reconnects, and time cannot pass its "
-                    "deadline without a ping (a pinger that returns after a failed ping is refuted); a new call over an established "
+                    "deadline without a ping (a pinger that returns after a failed ping is refuted); the deadline of a call is min(client timeout, caller deadline) (the "
+                    "variant that lets a later caller deadline replace the client timeout is refuted); the authentication channel, "
+                    "never closed, serves any number of re-authentications (closing it after the first one is refuted: panic); a new call over an established "
                     "connection completes. The extracted model predicts or accepts every generated history of the real client."),
     'assumptions': ["query ids of concurrently in-flight calls are distinct (256-bit math/rand ids); visible premise of C12_no_foreign_answer",
                     "data races, goroutine leaks and wall-clock bounds (deadline, reconnect latency) are runtime facts not exhibited by the "
@@ -49,7 +59,10 @@ PROP = {
                     "the ping period is modelled as an urgency bound of 5 one-second ticks (3 s sleep plus scheduling slack); connections "
                     "built by the harness' dial hook have no pinger and start from init_state_without_pinger",
                     "liveness of reconnection is an enabled path, not a fairness theorem (C12_reconnect_path_partial)",
-                    "connections with an auth key are not modelled; mutex critical sections are atomic steps (source order checked by go/ast)"],
+                    "connections with an auth key: the LTS abstracts handshake + authentication into LReconnectDone; the channel protocol is "
+                    "modelled separately (Proofs/ClientHistory.v); a second or late nonce wedging an authenticated client is not covered; "
+                    "sendAuthComplete overwrites the tcp.authentificationComplete magic with the pub.ed25519 one (observation, wire format: C11); "
+                    "mutex critical sections are atomic steps (source order checked by go/ast)"],
 }
 
 META = {
